@@ -243,7 +243,7 @@ fn minimise(spec: &Spec, prop: &str, viol: &Violation, concrete: &Option<serde_j
         *k = false;
     }
     let mut cur = keep_ops(spec, &keep);
-    let mut cur_v = viol.clone();
+    let mut cur_v;
     {
         let r = exec_noted(&cur, prop);
         execs += 1;
